@@ -196,7 +196,10 @@ def correspondence(ctx):
             # the same reads through InspectWrapper (all formats, or a subset of allowed_formats)
             if img.wellformed and rng.random() < (0.12 if n <= 64 * G.K else 0.04) and spent + 10 * c <= budget['total']:
                 spent += 10 * c
-                pairs.append(G.Pair(img, sizes, tag, kind='wrap', allowed=allowed_subset(img.fmt, rng)))
+                pw = G.Pair(img, sizes, tag, kind='wrap', allowed=allowed_subset(img.fmt, rng))
+                if 2 <= len(sizes) <= 400 and rng.random() < 0.6:      # another consumption protocol / call form
+                    pw.drive, pw.k, pw.form = rng.choice(G.WRAPPER_DRIVES), rng.randrange(1, len(sizes)), rng.randrange(64)
+                pairs.append(pw)
 
     def on(p, impl):
         G.note_verdict(ctx, p, impl)
